@@ -12,7 +12,7 @@ RULE = ('scenario: 1..3 per-thread programs (optionally sharing one thread id) o
         'strings, sampler windows, page faults with nested real-fault records of all four kinds, launch windows), '
         'merged by a generated schedule, then destructive edits: drop a prefix, drop a pseudo-random subset, duplicate '
         'events. Every surviving event is individually in-domain. templates: for every decodable name a fixed set '
-        'of 24 window shapes (missing START/END, lookups cut after their first chunk, undecoded nested kinds, ...) '
+        'of 28 window shapes (missing START/END, complete names / strings with a multi-byte character across a record boundary, lookups cut after their first chunk, undecoded nested kinds, ...) '
         'enumerated completely. Oracle: TracesParser.feed_generator + str() of every trace, and '
         'PyKdebugParser.formatted_traces on the same events as a v2 file (colour on and off), and the trace and callstack listings '
         'with generated process / thread / class / subclass filters and column switches (thread map present or absent), raise nothing. '
@@ -111,7 +111,7 @@ def prop_scenario(ctx, case):
 
 TEMPLATE_SHAPES = ['S E', 'S', 'E', 'N', 'A', 'S L E', 'S L L E', 'S L L L L L L E', 'S Lcut E', 'S J E', 'S P E',
                    'E S', 'S S E E', 'S F E', 'S G E', 'L S E', 'S T E', 'S M E', 'S Lmid E', 'S Lend E', 'S Lmid L E',
-                   'S H E', 'S D E', 'S U E']
+                   'S H E', 'S D E', 'S U E', 'W', 'S W E', 'X', 'S X E']
 
 
 def template_events(name, shape, seed, tid=0x77):
@@ -141,6 +141,10 @@ def template_events(name, shape, seed, tid=0x77):
             out.append(SC.ev(tid, 'PERF_THD_Data', 0, seed, k))
         elif tok == 'U':
             out.append(SC.ev(tid, 'DYLD_uuid_shared_cache_a', 0, seed, k))
+        elif tok == 'W':      # a complete thread name whose 32nd/33rd bytes are ONE two-byte character (the kernel cuts bytes, not characters)
+            out += EV.threadname_events(tid, b'a' * (31 - k % 2) + 'é'.encode() * (1 + k % 2) + b'-worker', 'TRACE_STRING_THREADNAME' if k % 2 else 'TRACE_STRING_THREADNAME_PREV')
+        elif tok == 'X':      # a complete announced string with a three-byte character across the first chunk boundary
+            out += EV.global_string_events(tid, 1, S.expand_words(seed, 0)[1] | 1, b'b' * 15 + '€'.encode() + b'/Library/Caches/x')
         elif tok == 'J':
             out.append(SC.junk(tid, seed, k))
         elif tok == 'P':
@@ -182,5 +186,5 @@ def run(ctx):
     names = [n for n in names if n in byname]
     seeds = [S.expand_words(ctx.seed * 1000 + s + 4096 + 100 * ctx.shard)[0] for s in range(ctx.n(3, 8))]
     cases = ({'name': n, 'shape': sh, 'seed': sd} for sd in seeds for n in names for sh in TEMPLATE_SHAPES)
-    ctx.run_enum('template', cases, prop_template, exhaustive_label='every decodable name x 24 window shapes')
+    ctx.run_enum('template', cases, prop_template, exhaustive_label='every decodable name x 28 window shapes')
     ctx.run_given('scenario', scenario_strategy(), prop_scenario, ctx.n(1200, 12000))
